@@ -93,7 +93,7 @@ Qed.
 
 Section WalkFacts.
   Variable h : heap.
-  Variable rt : bool.
+  Variable rt : nat -> node -> list edge.
   Variable cut : nat -> bool.
 
   Notation visit := (visit h rt cut).
@@ -156,7 +156,7 @@ Section WalkFacts.
     apply memb_false in Em.
     assert (Hlt := unvisited_cons n (visited st) Hn Em).
     destruct (fold_opt_some (fun e s => visit f (pos ++ fst e) (snd e) s)
-                (fun s => unvisited (visited s) < f) (node_edges rt n nd)) with
+                (fun s => unvisited (visited s) < f) (rt n nd)) with
         (s := {| visited := n :: visited st; events := events st |}) as [st2 [E2 _]].
     - intros e s _ Hs. destruct (IH (pos ++ fst e) (snd e) s Hs) as [s' Es].
       exists s'; split; auto.
@@ -196,7 +196,7 @@ Qed.
 
 Section WalkCorrect.
   Variable h : heap.
-  Variable rt : bool.
+  Variable rt : nat -> node -> list edge.
   Variable cut : nat -> bool.
 
   Notation visit := (visit h rt cut).
@@ -213,6 +213,18 @@ Section WalkCorrect.
 
   Lemma path_end a p c : path a p c -> expanded c.
   Proof. induction 1; auto. Qed.
+
+  Lemma path_snoc a p b : path a p b -> forall rel c,
+    In (rel, c) (out_edges b) -> expanded c -> path a (p ++ rel) c.
+  Proof.
+    induction 1 as [a Ha | a rel0 b p c0 Ha Hin Hp IH]; intros rel c Hedge Hc.
+    - simpl. rewrite <- (List.app_nil_r rel). apply path_cons with (b := c); auto. constructor; auto.
+    - rewrite <- List.app_assoc. apply path_cons with (b := b); auto.
+  Qed.
+
+  Lemma reach_step root n rel m :
+    reach root n -> In (rel, m) (out_edges n) -> expanded m -> reach root m.
+  Proof. intros [p Hp] Hin Hm. exists (p ++ rel). eapply path_snoc; eauto. Qed.
 
   (* ---- every event is a postprocess of a node reached by the recorded keys --- *)
   Lemma visit_paths : forall fuel pos n st st',
@@ -300,7 +312,7 @@ Section WalkCorrect.
         + intros [[<-|Hm] [Hc Hg]]; [exfalso; apply Hg; left; auto|].
           split; auto. }
     assert (Q : Inv (n :: G) st2 /\ incl (n :: visited st) (visited st2) /\
-                forall e, In e ([] ++ node_edges rt n nd) -> snd e < length h -> In (snd e) (visited st2)).
+                forall e, In e ([] ++ rt n nd) -> snd e < length h -> In (snd e) (visited st2)).
     { revert EF.
       apply (fold_opt_pre _ (fun done s => Inv (n :: G) s /\ incl (n :: visited st) (visited s) /\
                 forall e, In e done -> snd e < length h -> In (snd e) (visited s))).
@@ -346,7 +358,7 @@ Qed.
 
 Section WalkTheorems.
   Variable h : heap.
-  Variable rt : bool.
+  Variable rt : nat -> node -> list edge.
   Variable cut : nat -> bool.
 
   Notation expanded := (expanded h cut).
@@ -391,6 +403,17 @@ Section WalkTheorems.
       split; [|split; auto].
       apply (G _ _ _ Hr). apply Hroot.
       apply expanded_range with (cut := cut). eapply path_start; eauto.
+  Qed.
+
+  (* the postprocess of the root comes last *)
+  Theorem walk_root_last : forall root evs,
+    walk h rt cut root = Some evs -> expanded root -> exists evs', evs = evs' ++ [(root, [])].
+  Proof.
+    intros root evs. unfold walk, fuel_bound. simpl.
+    intros E [nd [En Hc]]. rewrite En, Hc in E.
+    match type of E with context [fold_opt ?f ?l ?s] => destruct (fold_opt f l s) as [st2|] end;
+      [|discriminate].
+    inversion E; subst. simpl. eauto.
   Qed.
 
   (* (iii) the order of the calls depends on the heap only: more fuel changes nothing *)
